@@ -452,6 +452,55 @@ func checkNode(h hist.Handle, what string, sh shape, r *runlog.R) error {
 	return nil
 }
 
+// checkNames: the queries that take a name, not an address (HasField, GetFields, CountField(name)), look the
+// name up literally among the named keys of the node, whatever it looks like and whatever options the call is
+// given (sub-check literal-names has histories made for it; here the trees of the main histories are asked).
+func checkNames(h hist.Handle, what string, salt int, r *runlog.R) error {
+	for _, k := range h.M.SortedKeys() {
+		n, err := h.C.CountField(k)
+		if err != nil {
+			return fmt.Errorf("%s: CountField(%q) failed: %v", what, k, err)
+		}
+		if !h.C.HasField(k) {
+			return fmt.Errorf("%s: HasField(%q) = false for a named key of the model", what, k)
+		}
+		for _, q := range litQueryOpts[1:3] {
+			if n2, err := h.C.CountField(k, q.opts...); err != nil || n2 != n {
+				return fmt.Errorf("%s: CountField(%q) = %d without options but %d, %v with %s: the name is looked up literally at the top level whatever the options", what, k, n, n2, err, q.what)
+			}
+		}
+		r.ClassIf(strings.ContainsAny(k, "./"), "CountField/HasField for an existing top-level key that contains a separator")
+	}
+	if got := h.C.GetFields(); len(got) != len(h.M.D) {
+		return fmt.Errorf("%s: GetFields() = %q but the model has %d named keys", what, got, len(h.M.D))
+	}
+	// a name that is no named key of the node has nothing to count, whatever it addresses as a path or index
+	probes := litProbes(h.M)
+	if len(probes) > 6 {
+		// six of them, rotating (cost)
+		if salt < 0 {
+			salt = -salt
+		}
+		k := salt * 5 % len(probes)
+		probes = append(append([]string(nil), probes[k:]...), probes[:k]...)[:6]
+	}
+	for _, p := range probes {
+		if _, isKey := h.M.D[p]; isKey {
+			continue
+		}
+		if h.C.HasField(p) {
+			return fmt.Errorf("%s: HasField(%q) = true, the model has no such named key", what, p)
+		}
+		for _, q := range litQueryOpts[:2] {
+			if n, err := h.C.CountField(p, q.opts...); err == nil || n != -1 {
+				return fmt.Errorf("%s: CountField(%q) with %s = %d, %v; there is no top-level setting of that name (%d named keys, %d list elements): want -1 and an error", what, p, q.what, n, err, len(h.M.D), len(h.M.A))
+			}
+		}
+		r.Class("CountField/HasField for a name that is no top-level key (index spellings, paths to grandchildren)")
+	}
+	return nil
+}
+
 // emptyListsKept: where the model holds a list with 0 elements (model.Node.IsEmptyList) the generic view
 // must show an empty list, not nothing: "removals affect only the addressed setting", the list the last
 // element was removed from is still there. Only nodes reached through pure dictionaries and pure lists
@@ -508,6 +557,16 @@ func checkAll(st *hist.State, c Case, step int, info *hist.Info, r *runlog.R) er
 	}
 	for _, h := range st.Pool {
 		if err := checkNode(h, fmt.Sprintf("handle #%d", h.ID), shapeOf(st), r); err != nil {
+			return err
+		}
+	}
+	// name queries: the root, and one pooled handle (rotating)
+	if err := checkNames(st.Root, "the root", step, r); err != nil {
+		return err
+	}
+	if len(st.Pool) > 0 && step >= 0 {
+		h := st.Pool[step%len(st.Pool)]
+		if err := checkNames(h, fmt.Sprintf("handle #%d", h.ID), step+1, r); err != nil {
 			return err
 		}
 	}
@@ -736,7 +795,7 @@ var subHist = runlog.Register(&runlog.Sub[Case]{
 		"Merge: policy default (60%) or replace/replace-arr/append/prepend; source generic data (40%), mixed Go representations (typed maps/slices, arrays, structs, pointers, named types, embedded *Config), a fresh *Config built from a tree (half of them top-level lists of objects) that stays in the case as a pooled handle, the *Config of an existing handle (the root, a child handle, a stand-alone or detached config; a source that contains the receiver or that the merge itself would modify is skipped), or generic data that embeds such a *Config under a (dotted) key or as a list element; addresses inside merged trees are fed to the later operations through the receiver and through the source. Half of the cases start from a random tree. " +
 		"40% of the removals that address a list element are followed by 1-3 more removals from the same list through the same receiver (index 0, or the same index again), so that lists lose their last remaining element (12% of the histories); the emptied list's address is fed to the later operations and reads (refill, padding write, Child, writes through that child, removal of and from the empty list, merges into it and from configs that hold it); one in four generated lists of merged/attached trees is empty to begin with. " +
 		"REJECTED OPERATIONS of every kind: walks through a primitive (Set*, SetChild, Remove, Child at overlapping addresses); about 1 in 6 Set*/SetChild is a write at the boundary of the index range: the explicit index just above the maximum index (half of them), 2-10 above, far above (1025, 5000, 1<<20, MaxInt32, MaxInt64), or exactly at a small maximum (accepted: the other side of the boundary), the maximum being the default 1024 or (6 in 10) a MaxIdx(0,1,2,3,4,7,9,16,64,1023) option given to that operation alone (an operation whose name has an index segment above its MaxIdx option is skipped: what such a segment denotes is C20's), or a negative index of the receiver's own list part; 6 in 10 of these addresses are a drawn address extended by 1-2 segments nothing was written to (q, r, deep, z, 5, 0, 2), so that the intermediate nodes of the rejected write do not exist (through the root and through handles); Remove/Child are sometimes given a MaxIdx option too; 1 in 10 merges from generic data holds a channel, a function or a complex number somewhere in its source (in a map at any depth, as a list element) and must fail. 1 in 10 initial trees, SetChild trees and data merges are handed over in Go struct representations (hist.StructRepr). " +
-		"After every step: generic dump of the root and of EVERY pooled handle (incl. all former merge sources: Merge copies, so a later write on either side must not show on the other) equals the path/tree model (shared by pointer with the handles), IsDict() iff the model has named keys; an operation the model rejects must return an error and CHANGE NOTHING: the stored trees (hook snapshot ucfg.VerifFingerprint with node identities: every node, name, payload; empty containers and nil entries are nodes like any other) of the root and of every pooled handle are identical before and after it, in addition to all the comparisons below; a list stays a list however few elements it holds: a node whose list elements were all removed, or that was written/merged in as an empty list where nothing or a primitive was, is a list with 0 elements (IsArray() true on old and new handles, CountField(name) = 0 for a pure list, the generic view shows an empty list, not nothing), and a node that never had a list part is none (IsArray() false; not asserted for the rest of a history once an empty list met a nil or a node without list part, where the statement does not say what results, nor for the Child of a nil setting); CountField(\"\") = list elements + named keys (nil entries count), CountField(name) = 1 for a primitive, = number of elements for a pure list; the step's address, one of 4 fixed addresses through the root and one through a pooled handle, and (after padding writes and every 4th step) one of the nil entries the receiver's tree holds are read through every getter, Has and Child via (name, idx), via the index as a decimal path segment or a segment in another integer syntax (alternating), via (prefix, idx) and via Child-by-Child navigation: all routes must observe the same and agree with the model. A nil entry (list padding, merged nil) exists: Has true, Bool/Int/Uint/Float fail, a Child (if given) is an empty config, CountField(name) is 0 or 1; String is not asserted. " +
+		"After every step: generic dump of the root and of EVERY pooled handle (incl. all former merge sources: Merge copies, so a later write on either side must not show on the other) equals the path/tree model (shared by pointer with the handles), IsDict() iff the model has named keys; an operation the model rejects must return an error and CHANGE NOTHING: the stored trees (hook snapshot ucfg.VerifFingerprint with node identities: every node, name, payload; empty containers and nil entries are nodes like any other) of the root and of every pooled handle are identical before and after it, in addition to all the comparisons below; a list stays a list however few elements it holds: a node whose list elements were all removed, or that was written/merged in as an empty list where nothing or a primitive was, is a list with 0 elements (IsArray() true on old and new handles, CountField(name) = 0 for a pure list, the generic view shows an empty list, not nothing), and a node that never had a list part is none (IsArray() false; not asserted for the rest of a history once an empty list met a nil or a node without list part, where the statement does not say what results, nor for the Child of a nil setting); CountField(\"\") = list elements + named keys (nil entries count), CountField(name) = 1 for a primitive, = number of elements for a pure list; NAME QUERIES (root and one pooled handle per step, rotating): HasField(k) for every named key k of the model, GetFields() has as many names as the model has named keys, CountField(k) is the same with PathSep(\".\") and PathSep(\"/\") as without options (the name is looked up literally at the top level like HasField does, also when it contains the separator: top-level a.b of histories without PathSep next to a nested a -> b), and for six (rotating) names that are NO named key of the node - the indices of its list part and one past the end in decimal, 0x and 0-prefixed spelling, the paths to its grandchildren with \".\" and \"/\", key.0, key.1, key.0x1 - HasField is false and CountField(name) and CountField(name, PathSep(\".\")) return -1 and an error; the step's address, one of 4 fixed addresses through the root and one through a pooled handle, and (after padding writes and every 4th step) one of the nil entries the receiver's tree holds are read through every getter, Has and Child via (name, idx), via the index as a decimal path segment or a segment in another integer syntax (alternating), via (prefix, idx) and via Child-by-Child navigation: all routes must observe the same and agree with the model. A nil entry (list padding, merged nil) exists: Has true, Bool/Int/Uint/Float fail, a Child (if given) is an empty config, CountField(name) is 0 or 1; String is not asserted. " +
 		"Non-trivial: a removal or write hit a node an earlier write of the same history put there (or an ancestor of it), or a write went through a pooled handle. Distinct: hash of the whole case.",
 	Gen: genCase,
 	Run: runCase,
